@@ -13,6 +13,7 @@ import (
 	"runtime"
 	"runtime/debug"
 	"strings"
+	"time"
 
 	"github.com/LiskHQ/lisk-engine/pkg/blockchain"
 	"github.com/LiskHQ/lisk-engine/pkg/codec"
@@ -41,6 +42,8 @@ type nRec struct {
 	St    int    `json:"st"`
 	Res   string `json:"res"`
 	Panic string `json:"panic,omitempty"`
+	Ms    int64  `json:"ms"`
+	Alloc uint64 `json:"alloc"`
 }
 
 type capW struct {
@@ -160,13 +163,19 @@ func vres(v p2p.ValidationResult) string {
 const attacker = p2p.PeerID("12D3KooWverifattacker")
 
 // run one entry point on one payload
-func (e *netEnv) run(f string, d []byte, gen string) nRec {
-	rec := nRec{K: "n", F: f, D: hex.EncodeToString(d), Gen: gen}
+func (e *netEnv) run(f string, d []byte, gen string) (rec nRec) {
+	rec = nRec{K: "n", F: f, D: hex.EncodeToString(d), Gen: gen}
 	if hung[f] { // a call of this entry point timed out: its goroutine (possibly holding locks) cannot be killed
 		rec.St, rec.Res = 4, "skipped-after-timeout"
 		return rec
 	}
+	t0 := time.Now()
+	var m0 runtime.MemStats
+	runtime.ReadMemStats(&m0)
 	defer func() {
+		var m1 runtime.MemStats
+		runtime.ReadMemStats(&m1)
+		rec.Ms, rec.Alloc = int64(time.Since(t0)/time.Millisecond), m1.TotalAlloc-m0.TotalAlloc
 		if rec.St == 3 {
 			hung[f] = true
 		}
